@@ -183,6 +183,45 @@ Theorem c06_no_repeat_model_based :
 Proof. intros C M meqb ms Hm. exact (mb_suggestion_not_excluded C M meqb ms Hm). Qed.
 Print Assumptions c06_no_repeat_model_based.
 
+(* GP searcher behind FIFOScheduler: initial points first, for EVERY history (new trial ids) *)
+Theorem c06_initial_first_model_based :
+  forall (C M : Type) (meqb : M -> M -> bool) (ms : C -> M),
+  (forall a b, meqb a b = true <-> a = b) ->
+  forall (init : list C) num_init allow_dup size retries outer (history : list (mb_event C)),
+  let s := mb_ctor C M init num_init allow_dup size retries outer in
+  mb_new_ids C M meqb ms s history ->
+  let o := snd (mb_run C M meqb ms s history) in
+  firstn (length init) o = map (ok_some C) (firstn (length o) init).
+Proof.
+  intros C M meqb ms Hm init ni ad sz rt outer es s Hids.
+  exact (mb_initial_first C M meqb ms es s Hids).
+Qed.
+Print Assumptions c06_initial_first_model_based.
+
+(* get_batch_configs (batch_size > 1) of the GP searcher, in EVERY state, for every draw stream and every
+   per-iteration ranking / local optimiser: the batch is a prefix I of the remaining initial points followed by
+   members R chosen at random or by the model; the members of R have pairwise different match strings, none is
+   that of a pending / failed / (observed) configuration, and none is that of an initial point placed into the
+   same batch (the batch-local exclusion list grows with EVERY member, whatever allow_duplicates says) *)
+Theorem c06_batch_no_repeat :
+  forall (C M : Type) (meqb : M -> M -> bool) (ms : C -> M),
+  (forall a b, meqb a b = true <-> a = b) ->
+  forall (s s' : mb_state C M) batch_size ds (oracles : list (list C * (C -> C))) batch,
+  mb_get_batch C M meqb ms s batch_size ds oracles = Ok (s', batch) ->
+  exists I R, batch = I ++ R /\ I = firstn (length I) (mb_p2e C M s) /\
+    NoDup (map ms R) /\
+    forall c, In c R -> ~ In (ms c) (tj_excl C M meqb ms (mb_tj C M s) (mb_allow_dup C M s)) /\
+                        ~ In (ms c) (map ms I).
+Proof. intros C M meqb ms Hm. exact (mb_get_batch_spec C M meqb ms Hm). Qed.
+Print Assumptions c06_batch_no_repeat.
+
+Example c06_example_batch :
+  let idf := fun c : nat => c in
+  let s := mb_ctor nat nat [7%nat] 3 false (Some 5%nat) 100 50 in
+  (* one initial point left, then a random draw (7 is rejected: already in the batch), then nothing observed -> random again *)
+  exists s', mb_get_batch nat nat Nat.eqb idf s 3 [DCfg 7%nat; DCfg 2%nat; DCfg 2%nat; DCfg 4%nat] [] = Ok (s', [7; 2; 4]%nat).
+Proof. eexists. vm_compute. reflexivity. Qed.
+
 (* restrict_configurations (RandomSearcher), in EVERY state with the initial points used up (hence
    after every history): a suggestion is a member of the restricted list and not excluded; the
    answer None means the restricted list is empty, or MAX_RETRIES consecutive position draws all
@@ -304,6 +343,40 @@ Proof.
   exact (gs_grid_once C M meqb ms Hm base shuffle init seed sh es).
 Qed.
 Print Assumptions c06_grid_once.
+
+(* ... and ACROSS a get_state / clone_from_state restore at any point of any history (incl. on-grid initial
+   points consumed before the snapshot): the answers of the original up to the snapshot followed by the answers
+   of the clone are the answers of the uninterrupted run, i.e. initial points, then each remaining grid point
+   once, then None forever *)
+Theorem c06_grid_once_across_restore :
+  forall (C M : Type) (meqb : M -> M -> bool) (ms : C -> M),
+  (forall a b, meqb a b = true <-> a = b) ->
+  forall (Seed : Type) (base : list C) (shuffle : Seed -> list C -> list C) (default_seed : Seed) (default_pts init : list C)
+         (seed : Seed) (sh : bool) (history continuation : list gs_event),
+  let grid := if sh then shuffle seed base else base in
+  let ok := grid_ok C M meqb ms (fold_left (excl_add C M meqb ms) init []) in
+  let s0 := gs_ctor C M base shuffle init seed sh false in
+  let s1 := fst (gs_run C M meqb ms s0 history) in
+  let k := count_gets (history ++ continuation) in
+  snd (gs_run C M meqb ms s0 history) ++
+  snd (gs_run C M meqb ms (gs_clone C M base shuffle default_seed default_pts s1 (gs_get_state C M s1)) continuation)
+    = firstn k (map Some (init ++ filter ok grid) ++ repeat None k).
+Proof.
+  intros C M meqb ms Hm Seed base shuffle dseed dpts init seed sh hist cont grid ok s0 s1 k.
+  rewrite (gs_clone_identity C M base shuffle dseed dpts s1).
+  unfold s1. rewrite <- (gs_run_app C M meqb ms hist s0 cont).
+  exact (proj1 (gs_grid_once C M meqb ms Hm base shuffle init seed sh (hist ++ cont))).
+Qed.
+Print Assumptions c06_grid_once_across_restore.
+
+Example c06_example_grid_across_restore :
+  let idf := fun c : nat => c in
+  let s0 := gs_ctor nat nat [0; 1; 2]%nat (fun (_ : unit) l => rev l) [1%nat] tt true false in
+  let s1 := fst (gs_run nat nat Nat.eqb idf s0 [GGet; GGet]) in
+  snd (gs_run nat nat Nat.eqb idf s0 [GGet; GGet]) = [Some 1; Some 2]%nat /\
+  snd (gs_run nat nat Nat.eqb idf (gs_clone nat nat [0; 1; 2]%nat (fun (_ : unit) l => rev l) tt [] s1 (gs_get_state nat nat s1))
+         [GGet; GGet]) = [Some 0%nat; None].
+Proof. split; reflexivity. Qed.
 
 (* the grid itself: itertools.product of duplicate-free value lists = every combination once *)
 Theorem c06_grid_is_product :
